@@ -119,7 +119,7 @@ def item_json(item):
 
 
 def setup(case):
-    cube = E.build_cube(case["shape"], case["fam"], case["wseed"], case["ecs"])
+    cube = E.build_cube(case["shape"], case["fam"], case["wseed"], case["ecs"], with_shape=(case["wseed"] % 4 != 0))
     nd = cube.data.ndim
     which = case["which"]
     if which == "wcs":
